@@ -38,6 +38,12 @@ class Interpreter {
         continue;
       }
       this.impl.start_evaluating(line);
+      if (this.impl.get_state() === JsInterpreterState.Errored) {
+        // The line was rejected. The interpreter refuses to evaluate anything
+        // else until the error has been collected (which `start()` will do,
+        // showing it to the user), so stop loading the program here.
+        return;
+      }
     }
     this.impl.start_evaluating("RUN");
   }
